@@ -42,6 +42,9 @@ SPECS["C16"] = dict(
              params=dict(quick=dict(mounts=2), thorough=dict(mounts=3)), witnesses=["done", "pdh-image"]),
         dict(name="order", pkg="lib/dispatchcloud/scheduler", harness=["scheduler/stubs.go", "scheduler/runqueue.go"], entry="GosymH_C16_order",
              params=dict(quick=dict(containers=2, types=1), thorough=dict(containers=3, types=1)), witnesses=["a-container-started", "a-container-unlocked", "done"]),
+        dict(name="order3-lite", pkg="lib/dispatchcloud/scheduler", harness=["scheduler/stubs.go", "scheduler/runqueue.go"], entry="GosymH_C16_order",
+             params=dict(quick=dict(containers=3, types=1, lite=1), thorough=dict(containers=4, types=1, lite=1)), witnesses=["a-container-started", "a-container-unlocked", "done"],
+             bound="3 containers, each Queued or Locked, none running, priorities 1..3"),
         dict(name="order2types", tier="thorough", pkg="lib/dispatchcloud/scheduler", harness=["scheduler/stubs.go", "scheduler/runqueue.go"], entry="GosymH_C16_order",
              params=dict(quick=dict(containers=2, types=2)), witnesses=["a-container-started", "a-container-unlocked", "done"]),
     ],
@@ -99,6 +102,8 @@ SPECS["C01"] = dict(
              params=dict(quick=dict(maxlen=1, volumes=2), thorough=dict(maxlen=2, volumes=3)), witnesses=["get-ok", "get-error"]),
         dict(name="put", pkg="services/keepstore", harness=["keepstore/c01_stub.go"], entry="GosymH_C01_put",
              params=dict(quick=dict(maxlen=1, volumes=2), thorough=dict(maxlen=2, volumes=2)), witnesses=["put-ok", "put-error", "put-hash-mismatch"]),
+        dict(name="put-1vol", pkg="services/keepstore", harness=["keepstore/c01_stub.go"], entry="GosymH_C01_put",
+             params=dict(quick=dict(maxlen=2, volumes=1), thorough=dict(maxlen=3, volumes=1)), witnesses=["put-ok", "put-error", "put-hash-mismatch"]),
     ],
 )
 
@@ -111,6 +116,8 @@ SPECS["C02"] = dict(
     runs=[
         dict(name="crash", pkg="services/keepstore", harness=["keepstore/c02_crash.go", "keepstore/util.go"], entry="GosymH_C02_crash", replay="engine",
              params=dict(quick=dict(bodylen=3, faults=0), thorough=dict(bodylen=4, faults=0)), witnesses=["killed", "acknowledged", "readable-after-restart", "done"]),
+        dict(name="cancel", pkg="services/keepstore", harness=["keepstore/c02_crash.go", "keepstore/util.go"], entry="GosymH_C02_cancel", replay="engine",
+             params=dict(quick=dict(bodylen=3), thorough=dict(bodylen=4)), witnesses=["cancelled", "acknowledged", "done"]),
         dict(name="crash-faults", pkg="services/keepstore", harness=["keepstore/c02_crash.go", "keepstore/util.go"], entry="GosymH_C02_crash", replay="engine",
              params=dict(quick=dict(bodylen=2, faults=1), thorough=dict(bodylen=3, faults=2)), witnesses=["killed", "acknowledged", "done"]),
     ],
